@@ -43,6 +43,10 @@ class Poly:
     def const_value(self):
         return self.terms.get((), Fraction(0))
 
+    def const_or_none(self):
+        """the value if the polynomial is a constant, else None"""
+        return self.const_value() if self.is_const() else None
+
     def is_zero(self):
         return not self.terms
 
